@@ -1,14 +1,15 @@
 /-
 Model of `scan_header` and `from_csv` (sknetwork/data/parse.py, property C18).
 
-A file is the list of its lines (without the line terminator; Python's `readlines()` keeps it, so no line is
-ever `''` and blank lines are data rows — mirrored).  External code is a parameter or a stated contract:
+A file is the list of its lines (without the line terminator, universal newlines). Comment lines are the lines
+that start with a comment character; blank lines (`row.strip() == ''`) are not data rows of the scan nor of an
+edge list (adjacency layouts keep them: a node without neighbours).  External code is a parameter or a stated contract:
 * `csv.reader(f, delimiter=d)` on the files considered (no quote characters) splits a line at every `d`
   (`splitOn`), a blank line gives the empty row;
-* `np.genfromtxt(lines, delimiter=d, comments=c, ndmin=2)` on the lines that are neither comment lines nor
-  blank: every line is cut at the first `c`, blank lines are
+* `np.genfromtxt(lines, delimiter=d, comments=None, ndmin=2)` on the lines that are neither comment lines nor
+  blank: blank lines are
   dropped, the rest is split at `d`, each field converted by `num` (a failure is `nan`); rows of unequal
-  length raise ValueError.
+  length raise ValueError, which `from_csv` turns into the fall-back to `csv.reader`.
 -/
 import SkNet.Model.Ingest
 
@@ -32,7 +33,12 @@ deriving Repr
 
 def countChar (d : Char) (s : String) : Nat := (s.toList.filter (· = d)).length
 
-def isSpace (c : Char) : Bool := c = ' ' || c = '\t' || c = '\n' || c = '\r' || c = '\x0b' || c = '\x0c'
+/-- `str.isspace` of Python: the ASCII ones, the separators FS/GS/RS/US, NEL, NBSP and the Unicode spaces -/
+def isSpace (c : Char) : Bool :=
+  c = ' ' || c = '\t' || c = '\n' || c = '\r' || c = '\x0b' || c = '\x0c' ||
+  c = '\x1c' || c = '\x1d' || c = '\x1e' || c = '\x1f' || c = '\x85' || c = '\xa0' ||
+  c.toNat = 0x1680 || (0x2000 ≤ c.toNat && c.toNat ≤ 0x200a) || c.toNat = 0x2028 || c.toNat = 0x2029 ||
+  c.toNat = 0x202f || c.toNat = 0x205f || c.toNat = 0x3000
 
 /-- `str.rstrip()` -/
 def rstrip (s : String) : String := String.ofList (s.toList.reverse.dropWhile isSpace).reverse
@@ -124,9 +130,10 @@ deriving Repr
 /-- cut a line at the first comment character (genfromtxt) -/
 def cutComment (c : Char) (s : String) : String := String.ofList (s.toList.takeWhile (· ≠ c))
 
-/-- the rows `np.genfromtxt` converts: comment tails removed, blank lines dropped, split at the delimiter -/
-def genRows (d c : Char) (lines : List String) : List (List String) :=
-  (((lines.map (cutComment c)).map stripSp).filter (fun s => s ≠ "")).map fun s => (splitAt d s).map strip
+/-- the rows `np.genfromtxt(lines, delimiter=d, comments=None)` converts: blank lines dropped, split at the
+    delimiter (a comment character inside a row is an ordinary character) -/
+def genRows (d : Char) (lines : List String) : List (List String) :=
+  ((lines.map stripSp).filter (fun s => s ≠ "")).map fun s => (splitAt d s).map strip
 
 /-- the lines of the file that are not comment lines (`not line.startswith(tuple(comments))`) -/
 def dataLines (comments : List Char) (lines : List String) : List String :=
@@ -165,7 +172,7 @@ def fastPath (symW : Flags → Bool) (num : String → Option Rat) (rows : List 
   match rows with
   | [] => some (.error .indexError)     -- empty array
   | r0 :: _ =>
-    if rows.any (fun r => r.length ≠ r0.length) then some (.error .valueError)
+    if rows.any (fun r => r.length ≠ r0.length) then none     -- genfromtxt's ValueError: read with csv.reader
     else if !rows.all (fun r => r.all fun s => (num s).isSome) then none    -- some nan: TypeError, caught
     else if rows.any (fun r => (r.take 2).any fun s => decide (2 ^ 53 ≤ ((num s).getD 0).num.natAbs / ((num s).getD 0).den)) then
       none      -- an identifier floats do not represent exactly: the rows are read as strings
@@ -204,7 +211,7 @@ def fromCsvWith (symW : Flags → Bool) (num : String → Option Rat) (lines : L
     -- whitespace-only lines are dropped before both readers
     let lines1 := lines0.filter fun row => strip row ≠ ""
     let rows := csvRows d lines1
-    match fastPath symW num (genRows d sc.comment lines1) f with
+    match fastPath symW num (genRows d lines1) f with
     | some r => r
     | none =>
       if rows.any (fun r => r.length < 2) then .error .indexError
